@@ -57,29 +57,29 @@ type Entry struct {
 
 // Report is everything Check found.
 type Report struct {
-	Type                                                                  string
-	CountClass                                                            string
+	Type                                                                     string
+	CountClass                                                               string
 	BytesPerSector, SectorsPerCluster, ReservedSectors, NumFATs, RootEntries int
-	TotalSectors                                                          uint64
-	FATSectors                                                            uint32
-	RootCluster                                                           uint32
-	FSInfoSector, BackupBootSector                                        int
-	ClusterCount                                                          uint32
-	FATOffset, RootDirOffset, DataOffset                                  int64
-	ClusterSize                                                           int
-	Label                                                                 string
-	RootLabel                                                             string
-	VolumeID                                                              uint32
-	FSInfoFree, FSInfoNext                                                uint32
-	Entries                                                               []Entry
-	Used, Free, Lost                                                      int
-	Problems                                                              []Problem
+	TotalSectors                                                             uint64
+	FATSectors                                                               uint32
+	RootCluster                                                              uint32
+	FSInfoSector, BackupBootSector                                           int
+	ClusterCount                                                             uint32
+	FATOffset, RootDirOffset, DataOffset                                     int64
+	ClusterSize                                                              int
+	Label                                                                    string
+	RootLabel                                                                string
+	VolumeID                                                                 uint32
+	FSInfoFree, FSInfoNext                                                   uint32
+	Entries                                                                  []Entry
+	Used, Free, Lost                                                         int
+	Problems                                                                 []Problem
 
 	// additions
-	Media      byte   // BPB_Media
-	ExtFlags   uint16 // fat32 BPB_ExtFlags
-	FSTypeText string // BS_FilSysType as stored (trimmed)
-	Bad        int    // clusters carrying the bad-cluster mark
+	Media      byte     // BPB_Media
+	ExtFlags   uint16   // fat32 BPB_ExtFlags
+	FSTypeText string   // BS_FilSysType as stored (trimmed)
+	Bad        int      // clusters carrying the bad-cluster mark
 	RootChain  []uint32 // fat32 root directory chain
 
 	fat   []uint32
